@@ -1,4 +1,5 @@
 import TF.Proofs.PolyDiv
+import TF.Proofs.PolyDivNtt
 /-!
 # C09 — polynomial division, reduction, gcd and power-series inversion are exact
 
@@ -164,5 +165,111 @@ theorem structured_multiple_of_degree_panics (p : List K) (n : Nat)
     (h : denote p = 0 ∨ n < (denote p).natDegree) : structuredMultipleOfDegree FK p n = none :=
   structuredMultipleOfDegree_none root p n h
 example : denote ([0] : List ℚ) = 0 ∨ 3 < (denote ([0] : List ℚ)).natDegree := Or.inl (by simp)
+
+/-- `reduce_by_structured_modulus` (stage 2 of `fast_reduce`) for a monic multiple `X^md + (degree < md-1)`:
+    it does not panic and the result is congruent to the input -/
+theorem reduce_by_structured_modulus_spec (a multiple : List K) (md : Nat) (hmd : 1 ≤ md)
+    (hmonic : (denote multiple).Monic) (hnat : (denote multiple).natDegree = md)
+    (htail : (denote multiple - X ^ md).degree < ((md - 1 : ℕ) : WithBot ℕ)) :
+    ∃ r, reduceByStructuredModulus FK a multiple = some r ∧ denote multiple ∣ denote a - denote r :=
+  reduceByStructuredModulus_spec root a multiple md hmd hmonic hnat htail
+example : (1 : Nat) ≤ 7 := by decide
+
+/-- `shift_factor_ntt_with_tail_length` for a modulus of degree ≥ 1 and every cut-off: the transform of the low `n`
+    coefficients of a multiple `X^n + low` of the modulus (`n` a power of two) and a tail with `deg low < tail < n` -/
+theorem shift_factor_ntt_with_tail_length_spec (N : NttOps K) (cutoff : Nat) (m : List K) (hm : denote m ≠ 0)
+    (hd : 1 ≤ (denote m).natDegree) :
+    ∃ low tail, shiftFactorNtt FK N cutoff m = some (N.ntt low, tail) ∧ isPowerOfTwo low.length = true ∧
+      tail < low.length ∧ (denote low).degree < tail ∧ denote m ∣ X ^ low.length + denote low :=
+  shiftFactorNtt_spec root N cutoff m hm hd
+example : (1 : Nat) ≤ (X ^ 2 + 1 : ℚ[X]).natDegree := by
+  rw [show (X ^ 2 + 1 : ℚ[X]) = X ^ 2 + C 1 by simp, natDegree_X_pow_add_C]; norm_num
+
+/-- `reduce_by_ntt_friendly_modulus` (stage 1 of `fast_reduce`): for `low` of power-of-two length `n` with
+    `deg low < tail < n` the result is congruent to the input modulo `X^n + low`; `NttDft N ω` — `ntt` is the DFT at
+    the primitive roots `ω n`, `intt` its inverse — is what property C06 establishes about the transform pair -/
+theorem reduce_by_ntt_friendly_modulus_spec (N : NttOps K) (ω : Nat → K) (hN : NttDft N ω) (a low : List K) (tail : Nat)
+    (hpow : isPowerOfTwo low.length = true) (htail : tail < low.length) (hS : (denote low).degree < tail) :
+    ∃ r, reduceByNttFriendlyModulus FK N a (N.ntt low) tail = some r ∧
+      (X ^ low.length + denote low : K[X]) ∣ denote a - denote r :=
+  reduceByNttFriendlyModulus_spec root N (nttConv_of_nttDft hN) a low tail hpow htail hS
+example : isPowerOfTwo ([1, 2, 3, 4] : List ℚ).length = true := by decide
+
+/-- **`fast_reduce`** — all three stages (NTT-friendly chunk-wise reduction, structured-multiple reduction, long
+    division), every dividend, every non-zero modulus, every storage, every value of `FAST_REDUCE_CUTOFF_THRESHOLD` and
+    of the stage-2 factor: no panic, and the result is the remainder -/
+theorem fast_reduce_spec (N : NttOps K) (ω : Nat → K) (hN : NttDft N ω) (cutoff stage2 : Nat) (a m : List K)
+    (hm : denote m ≠ 0) :
+    ∃ r, fastReduce FK N cutoff stage2 a m = some r ∧ denote r = denote a % denote m :=
+  fastReduce_spec root N (nttConv_of_nttDft hN) cutoff stage2 a m hm
+example : denote ([3, 0, 1] : List ℚ) ≠ 0 := by
+  intro h; have := congrArg (fun p => p.coeff 0) h; simp at this
+
+/-- **every reduction strategy returns the same remainder**: `reduce` for every dividend, every non-zero modulus,
+    every storage and every value of the three thresholds -/
+theorem reduce_spec_all_arms (N : NttOps K) (ω : Nat → K) (hN : NttDft N ω) (makesSense cutoff stage2 : Nat)
+    (a m : List K)
+    (hm : denote m ≠ 0) :
+    ∃ r, reduce FK N makesSense cutoff stage2 a m = some r ∧ denote r = denote a % denote m :=
+  reduce_spec root N makesSense cutoff stage2 a m hm (fun _ => fastReduce_spec root N (nttConv_of_nttDft hN) cutoff stage2 a m hm)
+example : denote ([3, 0, 1] : List ℚ) ≠ 0 := by
+  intro h; have := congrArg (fun p => p.coeff 0) h; simp at this
+
+/-- **`formal_power_series_inverse_newton`**: for every transform pair that is the DFT (`NttDft`, property C06), every
+    value of `FORMAL_POWER_SERIES_INVERSE_CUTOFF`, every storage of `f` with non-zero constant term and **every
+    precision `n`** (0, 1, non-powers of two, …): no panic and `f·g ≡ 1 (mod X^n)` — in all arms: constant `f`,
+    polynomial-arithmetic rounds only, and the rounds computed in the NTT domain with domain growth -/
+theorem fps_inverse_newton_spec (N : NttOps K) (ω : Nat → K) (hN : NttDft N ω) (cutoff : Nat) (f : List K)
+    (precision : Nat) (h0 : (denote f).coeff 0 ≠ 0) :
+    ∃ g, fpsInverseNewton FK N cutoff f precision = some g ∧
+      (X ^ precision : K[X]) ∣ denote f * denote g - 1 :=
+  fpsInverseNewton_spec root hN cutoff f precision h0
+example : (denote ([1, 1, 0, 5] : List ℚ)).coeff 0 ≠ 0 := by simp
+
+/-- `formal_power_series_inverse_newton` panics for the zero polynomial and for a zero constant term -/
+theorem fps_inverse_newton_panics (N : NttOps K) (cutoff : Nat) (f : List K) (precision : Nat)
+    (h : denote f = 0 ∨ (1 ≤ (denote f).natDegree ∧ (denote f).coeff 0 = 0)) :
+    fpsInverseNewton FK N cutoff f precision = none :=
+  fpsInverseNewton_none root N cutoff f precision h
+example : denote ([0, 0] : List ℚ) = 0 := by simp
+
+/-- **`clean_divide`** (with the repairs F9 and F11): for every field extension `L/K` (twenty-first: the cubic extension
+    over the base field), every transform pair over `L` that is the DFT (`NttDft`, property C06), every non-zero
+    offset, **every cut-off value and every divisor degree**, every non-zero divisor — with or without roots on the
+    internal evaluation coset `x·⟨ω⟩` (then the model, like the repaired code, falls back to long division), with or
+    without factors `X^k`, any storage — and every dividend it divides, including the zero dividend in any storage:
+    no panic, and the result is the exact quotient -/
+theorem clean_divide_spec {L : Type} [Field L] [Algebra K L] (rootL : Nat → Option L) (E : ExtOps K L)
+    (NX : NttOps L) (ω : Nat → L) (hN : NttDft NX ω)
+    (hlift : ∀ k, E.lift k = algebraMap K L k) (hunlift : ∀ k, E.unlift (algebraMap K L k) = some k)
+    (hoff : E.offset ≠ 0) (cutoff : Nat) (a d : List K) (hd : denote d ≠ 0) (hdvd : denote d ∣ denote a) :
+    ∃ q, cleanDivide FK (FieldOps.ofField L rootL) E NX cutoff a d = some q ∧ denote q * denote d = denote a ∧
+      denote q = denote a / denote d := by
+  obtain ⟨q, h1, h2⟩ := cleanDivide_spec root rootL E hN hlift hunlift hoff cutoff a d hd hdvd
+  exact ⟨q, h1, h2, EuclideanDomain.eq_div_of_mul_eq_left hd h2⟩
+example : denote ([1, 1] : List ℚ) ∣ denote ([0, 1, 1] : List ℚ) :=
+  ⟨X, by simp; ring⟩
+
+/-- below the cut-off (every cut-off value; in the production build every divisor of degree < 512) `clean_divide` is
+    long division: it returns the Euclidean quotient also when the division is not clean -/
+theorem clean_divide_below_cutoff {χ : Type} (FX : FieldOps χ) (E : ExtOps K χ) (NX : NttOps χ) (cutoff : Nat)
+    (a d : List K) (hd : denote d ≠ 0) (hlt : (denote d).natDegree < cutoff) :
+    ∃ q, cleanDivide FK FX E NX cutoff a d = some q ∧ denote q = denote a / denote d :=
+  let ⟨q, h1, h2, _⟩ := cleanDivide_below_cutoff root FX E NX cutoff a d hd hlt
+  ⟨q, h1, h2⟩
+example : (denote ([1, 1] : List ℚ)).natDegree < 512 :=
+  lt_of_le_of_lt (natDegree_denote_le _ 1 (by simp)) (by norm_num)
+
+/-- `clean_divide` panics for the zero divisor (every cut-off ≥ 0 … the degree `-1` is below every cut-off) -/
+theorem clean_divide_zero_divisor {χ : Type} (FX : FieldOps χ) (E : ExtOps K χ) (NX : NttOps χ) (cutoff : Nat)
+    (a d : List K) (hd : denote d = 0) : cleanDivide FK FX E NX cutoff a d = none := by
+  unfold cleanDivide
+  have hdeg := degree_spec root d
+  rw [if_pos hd] at hdeg
+  rw [if_pos (by rw [hdeg]; omega)]
+  unfold Model.PolyD.div
+  rw [naiveDivide_zero root a d hd]
+  rfl
+example : denote ([0, 0, 0] : List ℚ) = 0 := by simp
 
 end TF.C09
